@@ -26,7 +26,7 @@ def build_cases(rng, shard, nshards, scale):
     names = list(fieldmodel.FIELDS)
     S = scale
     cases = []
-    cases += c01.gen(rng, shard, nshards, names, int(120 * S), int(400 * S))
+    cases += c01.gen(rng, shard, nshards, names, int(1200 * S), int(800 * S))
     cases += c05.gen(rng, shard, nshards, names, int(80 * S), int(200 * S))
     cases += c12.gen(rng, shard, nshards, [n for n in names if "ringonly" not in fieldmodel.FIELDS[n].caps], int(60 * S), int(120 * S))
     cases += c20.gen(rng, shard, nshards, names, int(30 * S), int(150 * S), int(12 * S))
